@@ -19,6 +19,7 @@ def setup():
     except MachineryError:
         build(["e1"])
     build(["e2"])
+    build(["e3m", "e3r"], profile="nodbg")
     try:
         build(["e1"], features=["e1/priv_access"], profile="release")
     except MachineryError:
@@ -52,6 +53,16 @@ def _merge_hist(outs):
     return m
 
 
+def e3_bin_for(args, which="e3"):
+    """(binary, engine argv) for an E3 argument list; the marker `@nodbg` selects the build of the
+    harness in which debug assertions and overflow checks are off (profile `nodbg`)."""
+    prof = "nodbg" if "@nodbg" in args else "dev"
+    return bin_path(which, prof), [a for a in args if not a.startswith("@")]
+
+
+NODBG_NOTE = "a reduced-depth copy of the exploration runs against a build of the mounted and of the unmodified crate without debug assertions and overflow checks (cargo profile `nodbg`; replay arguments carry `@nodbg`)"
+
+
 def hist_family(prop, tier, runs, crash_phases, crash_note, conform, assumptions_extra, per_child=256, extra=None):
     """Shared body of C02/C03/C12/C17: explore all install histories up to a depth.
 
@@ -62,11 +73,14 @@ def hist_family(prop, tier, runs, crash_phases, crash_note, conform, assumptions
     t0 = time.time()
     mi = mount()
     build(["e3m", "e3r"])
+    build(["e3m", "e3r"], profile="nodbg")
     os.makedirs(os.path.join(WORK, "dig"), exist_ok=True)
     merged = []
+    runs = list(runs) + [(runs[0][0] + ["@nodbg"], 3 if tier == "quick" else 4, False)]
     for flags, depth, small in runs:
         args = ["hist", "--depth", str(depth), "--per-child", str(per_child)] + flags + (["--small"] if small else [])
-        outs = run_engine_sharded(bin_path("e3"), args, NCPU, timeout=2400)
+        ebin, eargs = e3_bin_for(args)
+        outs = run_engine_sharded(ebin, eargs, NCPU, timeout=2400)
         m = _merge_hist(outs)
         m["args"] = args
         merged.append(m)
@@ -108,7 +122,7 @@ def hist_family(prop, tier, runs, crash_phases, crash_note, conform, assumptions
                 if not take:
                     undecided += 1
             if take:
-                mine.append({"key": v["key"], "what": v["what"], "engine": "e3", "args": [a for a in m["args"] if a not in ("--small",)][:1] + [f for f in m["args"] if f in ("--fs", "--text", "--flush")],
+                mine.append({"key": v["key"], "what": v["what"], "engine": "e3", "args": [a for a in m["args"] if a not in ("--small",)][:1] + [f for f in m["args"] if f in ("--fs", "--text", "--flush", "@nodbg")],
                              "case": {"history": v["history"], "step": v["step"] & 0xFFF}})
         # the engine lists the first three cases per key and counts the rest
         for (p, k), n in m["counts"].items():
@@ -144,7 +158,7 @@ def hist_family(prop, tier, runs, crash_phases, crash_note, conform, assumptions
                 cov[k] = cov.get(k, 0) + v
             else:
                 cov[k] = v
-    return finish(prop, tier, t0, cov, viols, COMMON_ASSUMPTIONS + assumptions_extra, mi)
+    return finish(prop, tier, t0, cov, viols, COMMON_ASSUMPTIONS + assumptions_extra + [NODBG_NOTE], mi)
 
 
 def wide_lifetimes(prop, take):
@@ -274,7 +288,8 @@ def run_times(prop, runs, conform=True):
     mismatches = []
     for r, args in enumerate(runs):
         dm = [os.path.join(WORK, "dig", f"{prop}-t{r}-m-{i}.txt") for i in range(NCPU)]
-        cmds = [[bin_path("e3")] + args + ["--shard", f"{i}/{NCPU}", "--digests", dm[i]] for i in range(NCPU)]
+        ebin, eargs = e3_bin_for(args)
+        cmds = [[ebin] + eargs + ["--shard", f"{i}/{NCPU}", "--digests", dm[i]] for i in range(NCPU)]
         res = run_parallel(cmds, timeout=2400)
         outs = []
         for i, (rc, out, err) in enumerate(res):
@@ -286,7 +301,8 @@ def run_times(prop, runs, conform=True):
         merged.append(m)
         if conform:
             dr = [os.path.join(WORK, "dig", f"{prop}-t{r}-r-{i}.txt") for i in range(NCPU)]
-            cmds = [[bin_path("e3real")] + args + ["--shard", f"{i}/{NCPU}", "--digests", dr[i]] for i in range(NCPU)]
+            rbin, _ = e3_bin_for(args, "e3real")
+            cmds = [[rbin] + eargs + ["--shard", f"{i}/{NCPU}", "--digests", dr[i]] for i in range(NCPU)]
             for i, (rc, out, err) in enumerate(run_parallel(cmds, timeout=2400)):
                 if rc != 0:
                     raise MachineryError(f"conformance run e3real {args} shard {i} exited {rc}: {err[-1000:]}")
@@ -309,6 +325,12 @@ def times_family(prop, tier, runs, assumptions_extra, take_props=None, extra=Non
     t0 = time.time()
     mi = mount()
     build(["e3m", "e3r"])
+    build(["e3m", "e3r"], profile="nodbg")
+    # a reduced-depth copy of the first run against the build without debug assertions / overflow checks
+    first = list(runs[0])
+    di = first.index("--depth") + 1
+    first[di] = str(max(3, min(int(first[di]) - 1, 5)))
+    runs = list(runs) + [first + ["@nodbg"]]
     merged, validated, mismatches = run_times(prop, runs)
     take_props = take_props or (prop,)
     viols = []
@@ -318,7 +340,7 @@ def times_family(prop, tier, runs, assumptions_extra, take_props=None, extra=Non
             if v["prop"] == "MACHINERY":
                 raise MachineryError(f"{v['key']}: {v['what']}")
             if v["prop"] in take_props:
-                mine.append({"key": v["key"], "what": v["what"], "engine": "e3", "args": m["args"][:3],
+                mine.append({"key": v["key"], "what": v["what"], "engine": "e3", "args": m["args"][:3] + [a for a in m["args"] if a == "@nodbg"],
                              "case": {"history": v["history"], "n": v.get("n"), "step": v["step"]}})
         for (p, k), n in m["counts"].items():
             have = [v for v in mine if v["key"] == k]
@@ -355,7 +377,7 @@ def times_family(prop, tier, runs, assumptions_extra, take_props=None, extra=Non
             else:
                 cov[k] = v
         assumptions_extra = assumptions_extra + eass
-    return finish(prop, tier, t0, cov, viols, COMMON_ASSUMPTIONS + assumptions_extra, mi)
+    return finish(prop, tier, t0, cov, viols, COMMON_ASSUMPTIONS + assumptions_extra + [NODBG_NOTE], mi)
 
 
 def check_c14(tier):
@@ -814,15 +836,16 @@ def replay(pid, path):
     mi = mount()
     eng = case.get("engine")
     if eng == "e3":
-        build(["e3m", "e3r"])
-        fam_args = case["args"]
+        prof = "nodbg" if "@nodbg" in case["args"] else "dev"
+        build(["e3m", "e3r"], profile=prof)
+        fam_args = [a for a in case["args"] if not a.startswith("@")]
         if fam_args and fam_args[0] == "times":
             fam_args = ["times", "--n", str(case["case"].get("n", 1))]
         if fam_args and fam_args[0] == "async":
             fam_args = ["async", "--threads"]
         rc = 0
         for b in ("e3", "e3real"):
-            r = subprocess.run([bin_path(b)] + fam_args + ["--replay", path], capture_output=True, text=True, cwd=WORK, env=env_offline())
+            r = subprocess.run([bin_path(b, prof)] + fam_args + ["--replay", path], capture_output=True, text=True, cwd=WORK, env=env_offline())
             if r.returncode != 0:
                 print(f"MACHINERY-ERROR replay engine {b} exited {r.returncode}: {r.stderr[-500:]}")
                 return 2
